@@ -120,11 +120,13 @@ pub proof fn lemma_scan(pre: Seq<char>, x: Seq<char>, post: Seq<char>)
     ensures jscan(pre + jesc(x) + seq!['"'] + post, pre.len() as int) == Some((x, (pre.len() + jesc(x).len() + 1) as int)),
     decreases x.len()
 {
+    hide(jscan);
     let s = pre + jesc(x) + seq!['"'] + post;
     let i = pre.len() as int;
     if x.len() == 0 {
         assert(jesc(x) =~= Seq::<char>::empty());
         assert(s[i] == '"');
+        lemma_jscan_quote(s, i);
     } else {
         let c = x[0];
         let rest = x.skip(1);
@@ -137,16 +139,20 @@ pub proof fn lemma_scan(pre: Seq<char>, x: Seq<char>, post: Seq<char>)
         assert(forall|k: int| 0 <= k < e.len() ==> s[i + k] == e[k]);
         if c == '"' || c == '\\' {
             assert(s[i] == '\\' && s[i + 1] == c);
+            lemma_jscan_pair(s, i);
         } else if (c as int) < 0x20 {
             lemma_hex((c as int) / 16);
             lemma_hex((c as int) % 16);
             assert(s[i] == '\\' && s[i + 1] == 'u' && s[i + 2] == '0' && s[i + 3] == '0');
             assert(s[i + 4] == hex_digit_spec((c as int) / 16) && s[i + 5] == hex_digit_spec((c as int) % 16));
+            assert(hex_val('0') == Some(0int));
             let v = 0 * 4096 + 0 * 256 + ((c as int) / 16) * 16 + (c as int) % 16;
             assert(v == c as int);
             assert(v as char == c);
+            lemma_jscan_u(s, i, 0, 0, (c as int) / 16, (c as int) % 16);
         } else {
             assert(s[i] == c);
+            lemma_jscan_plain(s, i);
         }
     }
 }
@@ -178,6 +184,7 @@ pub proof fn lemma_elems(pre: Seq<char>, strs: Seq<Seq<char>>, k: int, n: int)
     ensures jelems(pre + jtail(strs, k, n), pre.len() as int) == Some(strs.subrange(k, n)),
     decreases n - k
 {
+    hide(jscan); hide(jesc); hide(junesc);
     let s = pre + jtail(strs, k, n);
     let i = pre.len() as int;
     let x = strs[k];
